@@ -28,6 +28,8 @@ pub enum Phase {
 pub enum Cond {
     Scripted { id: u32, outcomes: Vec<bool> },
     LessThan { id: u32, t: u8, n: u32 },
+    /// `LessThanN::new(n, ValueOf::<F0>::new())`: a float lens and a float bound
+    LessThanF { id: u32, n: f64 },
     EveryN { id: u32, t: u8, n: u32 },
     ChangeDelta { id: u32, t: u8, threshold: u32 },
     ChangeEq { id: u32, t: u8 },
@@ -42,6 +44,7 @@ impl Cond {
         match self {
             Cond::Scripted { id, .. }
             | Cond::LessThan { id, .. }
+            | Cond::LessThanF { id, .. }
             | Cond::EveryN { id, .. }
             | Cond::ChangeDelta { id, .. }
             | Cond::ChangeEq { id, .. }
@@ -55,6 +58,7 @@ impl Cond {
         match self {
             Cond::Scripted { .. } => "scripted",
             Cond::LessThan { .. } => "less-than-n",
+            Cond::LessThanF { .. } => "less-than-n (float lens)",
             Cond::EveryN { .. } => "every-n",
             Cond::ChangeDelta { .. } => "change-of-delta",
             Cond::ChangeEq { .. } => "change-of-eq",
@@ -382,6 +386,8 @@ impl Serialize for Spy {
 fn read_progress(state: &State<EP>, t: u8) -> Option<u64> {
     if t == TAG_IT {
         state.try_get_value::<Progress<ValueOf<Iterations>>>().ok().map(|v| v.to_bits())
+    } else if t == TAG_F0 {
+        state.try_get_value::<Progress<ValueOf<F0>>>().ok().map(|v| v.to_bits())
     } else {
         with_ty!(t, T => state.try_get_value::<Progress<ValueOf<T>>>().ok().map(|v| v.to_bits()))
     }
@@ -469,6 +475,7 @@ pub fn build_cond(c: &Cond, sh: &Arc<Shared>) -> Box<dyn Condition<EP>> {
             };
             spy(*id, inner, Some(*t))
         }
+        Cond::LessThanF { id, n } => spy(*id, LessThanN::new(*n, ValueOf::<F0>::new()), Some(TAG_F0)),
         Cond::EveryN { id, t, n } => {
             let inner = if *t == TAG_IT {
                 EveryN::iterations(*n)
@@ -988,6 +995,9 @@ impl<'p> Interp<'p> {
             Cond::LessThan { t, .. } => {
                 self.model.top().insert(tag_progress(*t), 0f64.to_bits());
             }
+            Cond::LessThanF { .. } => {
+                self.model.top().insert(tag_progress(TAG_F0), 0f64.to_bits());
+            }
             Cond::ChangeDelta { t, .. } | Cond::ChangeEq { t, .. } => {
                 self.model.top().insert(tag_prev(*t), NONE);
             }
@@ -1030,6 +1040,16 @@ impl<'p> Interp<'p> {
                 let progress = f64::from(value) / f64::from(*n);
                 self.model.set(tag_progress(*t), progress.to_bits());
                 (value < *n, self.model.get(tag_progress(*t)))
+            }
+            Cond::LessThanF { n, .. } => {
+                let value = f64::from_bits(self.model.get(TAG_F0).ok_or(MErr::NotFound)?);
+                let progress = value / *n;
+                self.model.set(tag_progress(TAG_F0), progress.to_bits());
+                if value.is_nan() {
+                    self.probe("less-than-n over a NaN value");
+                }
+                // true exactly while the value is below n: NaN is not below anything
+                (value < *n, self.model.get(tag_progress(TAG_F0)))
             }
             Cond::EveryN { t, n, .. } => {
                 let value = self.model.get(*t).ok_or(MErr::NotFound)? as u32;
